@@ -1580,6 +1580,15 @@ func (d *DotGit) PackRefs() (err error) {
 	if err = d.addRefsFromRefDir(&refs, seen); err != nil {
 		return err
 	}
+	// Symbolic references cannot be represented in packed-refs; like
+	// git, leave them as loose references.
+	hashRefs := refs[:0]
+	for _, ref := range refs {
+		if ref.Type() == plumbing.HashReference {
+			hashRefs = append(hashRefs, ref)
+		}
+	}
+	refs = hashRefs
 	if len(refs) == 0 {
 		// Nothing to do!
 		return nil
